@@ -16,6 +16,7 @@ from .. import specgen as sg
 from .. import monitors as M
 from .. import world
 from .. import units
+from .. import msgs
 from ..core import Result
 from . import common
 
@@ -36,7 +37,7 @@ REAL = common.REAL_ALL
 STUBS = common.STUBS_ALL
 PROBES = ['one_sample_trace', 'declared_unused_var', 'supplied_undeclared_var', 'permuted_inputs', 'empty_batch', 'unsupported_rejected',
           'rejected_at_parse', 'rejected_at_pastify', 'rejected_at_first_evaluation', 'reset_called', 'combined_class',
-          'object_reused_for_another_log', 'configured_sampling_period']
+          'object_reused_for_another_log', 'configured_sampling_period', 'message_typed_variable']
 
 UNSUPPORTED = {
     # kind, pastify -> constructs that must be rejected
@@ -150,6 +151,11 @@ def gen(rng, tier):
             n2 = rng.choice([1, max(1, sc['n'] - 1), max(1, sc['n'] // 2), sc['n'], sc['n'] + 2])
             sc['again'] = {'n': n2, 'data': world.gen_trace(rng, declared, n2)}
         shapes.append('object_reused_for_another_log')
+    if rng.random() < 0.12:
+        # message-typed variables read through a field path of 1 to 4 attributes
+        sc['structs'] = dict((v, rng.choice(msgs.PATHS)) for v in declared if rng.random() < 0.6)
+        if sc['structs']:
+            shapes.append('message_typed_variable')
     order = list(declared)
     rng.shuffle(order)
     sc['order'] = order
@@ -169,7 +175,10 @@ def desc_of(sc):
     dense = sc['kind'].startswith('ct')
     sp = sg.Spelling(random.Random(sc.get('spell_seed', 0)))
     nt = sc.get('notation') if not dense else None
-    d = {'cls': sc['cls'], 'vars': common.var_decls(sc['declared'])}
+    st = sc.get('structs') or {}
+    d = {'cls': sc['cls'], 'vars': [[v, 'Msg' if v in st else 'float'] for v in sc['declared']]}
+    if st:
+        sc = dict(sc, ast=common.structify(sc['ast'], st))
     if nt:
         try:
             d['spec'] = 'out = ' + sg.to_text(sc['ast'], sp, units.bounds_printer(nt, random.Random(sc.get('spell_seed', 0)))) + ';'
@@ -313,6 +322,10 @@ def shrinks(sc):
     if sc.get('do_reset'):
         c = copy.deepcopy(sc)
         c['do_reset'] = False
+        yield c
+    if sc.get('structs'):
+        c = copy.deepcopy(sc)
+        c['structs'] = {}
         yield c
     if sc.get('again'):
         c = copy.deepcopy(sc)
